@@ -17,7 +17,7 @@ RULE = ("pairs (code cell, decoder) from the catalogue; t = floor((d_adv-1)/2) f
         "ML clause: all 2^n words for n<=10 (thorough 12), seeded words above. Non-trivial: error weight>=1 and message!=0; distinct = (cell, decoder, message, pattern).")
 ASSUMPTIONS = ["reference codebook = GF(2) span of encoder(I_k) (C01 shows encoder == m.G); distances by brute force in kverif/ref/gf2.py",
                "a decoder exception on a binary word of the right length is a failure of the clause, not a harness error",
-               "Reed-Muller nearest-codeword inverse and brute-force ML are exercised for k<=11"]
+               "brute-force ML is exercised for k<=11; the Reed-Muller nearest-codeword inverse for k<=16 (RM(3,5), k=26, would need a 2^26-row codebook inside the library)"]
 CHK = "c02:check_case"
 
 
@@ -252,6 +252,8 @@ def check_cell(ctx, spec, only_decoder=None):
         # (c) ML completeness
         if (dname in ("syndrome", "ml") or (dname == "inverse" and spec["family"] == "rm")) and k <= 16:
             _check_ml(ctx, enc, dec, cell, spec, dname, cbook, n, k, rng)
+    if spec["family"] == "rm" and 11 < k <= 16 and only_decoder in (None, "inverse"):
+        _rm_inverse_big(ctx, enc, {**base_cell, "decoder": "inverse"}, spec, cbook, n, k, rng, t_true)
     if len(ctx.samples) < 2:
         ctx.sample({"cell": base_cell, "n": n, "k": k, "d_true": d_true, "t_advertised": t_adv, "t_source": src})
 
@@ -344,6 +346,43 @@ def _check_ml(ctx, enc, dec, cell, spec, dname, cbook, n, k, rng):
         ctx.fail_total += len(bad) - 1
 
 
+def _rm_inverse_big(ctx, enc, cell, spec, cbook, n, k, rng, t):
+    """Reed-Muller nearest-codeword inverse for 11 < k <= 16 (RM(2,5), RM(3,4)): each call enumerates 2^k codewords, so words go
+    in chunks of 8. Random codewords x random patterns of every weight 0..t, then random words for the ML clause."""
+    import torch
+    dec = make_decoder("inverse", enc)
+    ctx.cls("pairs_inverse_rm_big")
+    per_w = 16 if ctx.tier == "thorough" else 8
+    msgs, errs = [], []
+    for w in range(0, t + 1):
+        for _ in range(per_w if w else 2):
+            v = 0
+            for pos in rng.choice(n, size=w, replace=False):
+                v |= 1 << int(pos)
+            msgs.append(int(rng.randint(1, 1 << k)))
+            errs.append(v)
+    msgs, errs = np.asarray(msgs, dtype=np.uint64), np.asarray(errs, dtype=np.uint64)
+    for i in range(0, len(msgs), 8):
+        run_words(ctx, dec, cell, spec, "inverse", msgs[i:i + 8], errs[i:i + 8], cbook, n, k, "C02.a_correct")
+    nw = 48 if ctx.tier == "thorough" else 16
+    words = np.array([int(rng.randint(0, 1 << 30)) | (int(rng.randint(0, 1 << 30)) << 30) for _ in range(nw)], dtype=np.uint64) & np.uint64((1 << n) - 1)
+    for i in range(0, nw, 8):
+        w8 = words[i:i + 8]
+        try:
+            outs = np.asarray(dec(torch.from_numpy(_bits(w8, n).copy())).detach().numpy()).reshape(len(w8), -1)
+        except Exception as e:  # noqa: BLE001
+            ctx.ev()
+            ctx.fail("C02.c_ml_raises", cell, {"spec": spec, "decoder": "inverse", "word": int(w8[0])}, f"{type(e).__name__}: {str(e)[:160]}", "decoded", checker=CHK)
+            return
+        ctx.ev(len(w8))
+        dist = gf2.popcount64(w8 ^ cbook[_ints(outs).astype(np.int64)])
+        best = gf2.min_distance_to_code(cbook, w8)
+        ctx.nontrivial_many(("inverse", str(cell), "ml"), w8[best > 0].astype(np.int64).tolist())
+        for j in np.nonzero(dist != best)[0]:
+            ctx.fail("C02.c_ml", cell, {"spec": spec, "decoder": "inverse", "word": int(w8[j])}, {"distance_of_decoded_codeword": int(dist[j])},
+                     {"minimum_distance_to_code": int(best[j])}, "inverse: decoded codeword is not at minimum Hamming distance from the received word", CHK)
+
+
 def check_case(ctx, cell, case):
     """Replay: one (spec, decoder, message, error) or (spec, decoder, word)."""
     import torch
@@ -412,6 +451,8 @@ def units(tier, seed):
                 continue
             keep.append(s)
         specs = keep
+        # the property quantifies over all RM(r,m) with m<=5: the shared quick catalogue stops at m=4
+        specs += [{"family": "rm", "r": r, "m": 5} for r in range(0, 5)]
 
     def w(s):
         f = s["family"]
